@@ -137,7 +137,8 @@ Definition show_names (n : names) : string :=
   dec_of_N (n_llmnr n) ++ "." ++ dec_of_N (n_nbns n).
 
 Definition show_host (e : ip * host) : string :=
-  show_ip (fst e) ++ "/" ++ show_ip (h_ip (snd e)) ++ "/" ++ show_mac (h_mac (snd e)) ++ "/" ++
+  (* key / Host.Addr.IP / MACEntry.MAC / Host.Addr.MAC (one value in the model: the two Go slices must stay equal) *)
+  show_ip (fst e) ++ "/" ++ show_ip (h_ip (snd e)) ++ "/" ++ show_mac (h_mac (snd e)) ++ "/" ++ show_mac (h_mac (snd e)) ++ "/" ++
   b01 (h_online (snd e)) ++ b01 (h_dirty (snd e)) ++ "/" ++ dec_of_Z (h_last (snd e)) ++ "/" ++
   show_names (h_names (snd e)).
 
